@@ -270,3 +270,54 @@ CLAIMS = {
         'technique': 'frozen inventory of dominating rejections with strength comparison + def-use rule on failure results + CFG guard rules',
     },
 }
+
+# what round 5 added to each claim (appended to the text above; DESIGN.md section 13.8 has the detail)
+ROUND5 = {
+    'C01': 'the load-time rejections are compared per switch arm (a stronger test in a sibling arm no longer stands in for a dropped one); OVERWRITE / '
+           'FREENULL (no second fresh allocation into an owning field on one path; a release leaves the field re-assigned or null); LOADERSIB for '
+           'gr_face_preloadGlyphs: the box pool is sized by the sub-box count of EVERY glyph read (accumulating or per-glyph contract of read_glyph) at '
+           'the same bytes per sub-box as read_box writes.',
+    'C02': 'DERIVED (a member pointer computed from a member buffer is computed again after the buffer is reallocated: Code::_data after the shrinking '
+           'realloc of _code); LOOPLIMIT by bounded execution: Pass::adjustSlot interpreted on every stream of up to 3 slots x high-water mark x cursor x '
+           'flag x advance keeps "highpassed() only while the cursor is beyond the high-water slot", the invariant the loop limit of Pass::runGraphite '
+           'hangs on; the box-pool rules of C01/C10.',
+    'C03': 'INDEX (PUT_COPY restores the slot\'s own index: defect F15, repaired); getClassGlyph interpreted for class ids around the class count.',
+    'C04': 'DETACH/"no TEMP_COPY for a rule slot that is deleted": the insertion in decoder::apply_analysis is dominated by a test of a per-slot flag the '
+           'DELETE arm of analyse_opcode sets, so SlotMap::collectGarbage finds a deleted slot through its own map entry and Segment::freeSlot takes it '
+           'out of its parent\'s child chain (defect F14, repaired in /repo a27117cd).',
+    'C05': 'the text-reading bounded execution of C12 (TEXTEXEC) is shared: one char-info per character actually read.',
+    'C06': 'PASSORDER by bounded execution: Face::runGraphite, with both Silf::runGraphite calls inlined from their CFGs and Pass::runGraphite a recording '
+           'native, is interpreted on every pass layout the loader admits (n <= 4 passes quick / 7 thorough, first positioning pass p <= n, bidi pass none '
+           'or p..n): every pass runs exactly once in font order, the bidi step exactly once at its place, the characters are associated once between '
+           'the two halves (this reported defects F17 and F18 on the unchanged tree, both repaired); Slot::setGlyph stores glyph id, real glyph id, advance '
+           'and bidi class on every path; the comparator of the sorted rule lists is compared by branch condition, not by text.',
+    'C07': 'DRIVERS: the epilogue writes the slot-map position back before storing through it; DERIVED (shared with C02): the operand bytes the handlers '
+           'claim are read through _data, which is re-derived after the code block is reallocated.',
+    'C08': 'Font::Font interpreted: every cell of the advance cache starts at the "not yet asked" value.',
+    'C09': 'NOGLOBAL in the telemetry configuration (-DGRAPHITE2_TELEMETRY, units that install an allocation category): the scope guard restores the '
+           'process-wide category pointer on every path of its destructor and every raw set_category() is under a guard, so the pointer is back to null '
+           'when gr_make_face returns; m_hinted tests the caller\'s handle, not the never-null member.',
+    'C10': 'BOXSIZE / box count (shared with C01, C02); AGREE (shared with C13).',
+    'C11': 'COUNTEXACT: gr_count_unicode_characters interpreted over every short code-unit sequence of every encoding form class; UTF-32 range test.',
+    'C12': 'TEXTEXEC: Segment::read_text / process_utf_data interpreted over every short text of every code-unit class: nothing is read at or beyond the '
+           'first NUL or the nChars-th character, one char-info per character.',
+    'C13': 'SEGSEARCH (the format-4 binary search and the format-12 group search interpreted over every small sorted table: the segment found is the one '
+           'containing the code point, nothing outside the table is read); AGREE (CachedCmap built by its own constructor from a small modelled cmap and '
+           'queried for every code point gives what DirectCmap gives: this reported defect F16 on the unchanged tree, repaired).',
+    'C14': 'COPYGUARD by contract: safe_copy / fast_copy / overrun_copy are interpreted for every small (length, distance, room) and write exactly the bytes '
+           'their callers budget for; no exit of Face::Table::decompress leaves the compressed bytes installed.',
+    'C15': 'FONTFLOW/use: the only things done with a Font pointer are forwarding it as a Font, calling its members, destroying it and branching on its '
+           'null-ness; the null-ness never becomes data (a bool argument, a stored flag), directly or through a local; m_hinted tests the caller\'s handle.',
+    'C16': 'OVERWRITE, FREENULL, stores through reference locals, fn-pointer hoisting.',
+    'C17': 'VERDICTSHIFT (the shift handed back is the one the verdict was computed for).',
+    'C18': 'LANGMATCH/fresh copy: in SillMap::readSill the object every applyValToFeature writes into is created from m_defaultFeatures inside the language '
+           'loop; FAILATOMIC through List.h\'s own resize interpreted on a modelled heap; a tag normaliser that is not a recognisable padding chain is '
+           'interpreted on a 10^4 byte-class grid of tags against its definition.',
+    'C19': 'JUSTPOOL: SlotJustify::size_of(L) interpreted for L = 0..8 bounds every store of Slot::setJustify / SlotJustify::LoadSlot and the clear of '
+           'Segment::freeJustify (an out-of-range index is reported by the interpreter); every value stored in the pool growth count has lower bound >= 1; '
+           'positionSlots re-reverses on the decision taken at entry.',
+    'C20': 'the grid interpretation of an unrecognised normaliser (shared with C18).',
+}
+for _k, _v in ROUND5.items():
+    if _k in CLAIMS:
+        CLAIMS[_k]['text'] += '  Round 5: ' + _v
